@@ -114,7 +114,9 @@ fn gen_spec_b(rng: &mut Rng, cfg: &GenCfg, depth: u32, budget: &mut u32, mult: u
             let keys = distinct_strings(rng, n, cfg.plain_keys);
             let init = keys[rng.below(n as u64) as usize].clone();
             let mut map = FxHashMap::default();
-            for k in keys { map.insert(k, Box::new(gen_spec_b(rng, cfg, depth + 1, budget, mult))); }
+            // now and then a variant used like an enum: every alternative is `const`
+            let all_const = rng.chance(1, 6);
+            for k in keys { map.insert(k, Box::new(if all_const { spec::Node::Const } else { gen_spec_b(rng, cfg, depth + 1, budget, mult) })); }
             spec::Node::Variant { map, init }
         }
         _ => spec::Node::Optional { value_type: Box::new(gen_spec_b(rng, cfg, depth + 1, budget, mult)), init_present: rng.chance(1, 2) },
@@ -131,6 +133,8 @@ fn gen_real_in(rng: &mut Rng, init: f64, min: Option<f64>, max: Option<f64>) -> 
         _ => init + gen_signed(rng),
     };
     let mut v = if v.is_finite() { v } else { init };
+    // negative zero is a value of its own (its JSON text is "-0.0")
+    if rng.chance(1, 12) && min.map(|m| m <= 0.0).unwrap_or(true) && max.map(|m| m >= 0.0).unwrap_or(true) { v = -0.0; }
     if let Some(m) = min { if v < m { v = m; } }
     if let Some(m) = max { if v > m { v = m; } }
     v
